@@ -220,6 +220,17 @@ pub fn ohsl_position_eq<T: PartialEq>(v: &Vec<T>, value: &T) -> (r: Option<usize
     v.iter().position(|x| *x == *value)
 }
 
+/// R19: `v.iter().map(f).collect()` into a Vec.  Assumed (std contract of slice `iter`, `Iterator::map` and `collect`): the
+/// closure is applied to every element in order; the result has the length of `v` and its i-th element is a value the
+/// closure may return for `v[i]`.  The closure itself is source text, verified against the contract the .vspec file gives it.
+#[verifier::external_body]
+pub fn ohsl_map_collect<T, U, F: Fn(&T) -> U>(v: &Vec<T>, f: F) -> (r: Vec<U>)
+    requires forall|i: int| 0 <= i < v@.len() ==> call_requires(f, (&#[trigger] v@[i],)),
+    ensures r@.len() == v@.len(), forall|i: int| 0 <= i < v@.len() ==> call_ensures(f, (&v@[i],), #[trigger] r@[i]),
+{
+    v.iter().map(f).collect()
+}
+
 /// R7: `for t in v.drain(..)` (v: &mut Vec) yields all elements in order and leaves v empty.
 #[verifier::external_body]
 pub fn vec_take<T>(v: &mut Vec<T>) -> (r: Vec<T>)
